@@ -534,6 +534,9 @@ func registerType(tov reflect.Type) error {
 	case reflect.Map:
 		typeKey := tov.Key()
 		typeValue := tov.Elem()
+		if encodesToNothing(typeKey) && encodesToNothing(typeValue) {
+			return fmt.Errorf("map of zero-size entries (%v) is not supported", tov)
+		}
 
 		// encoders for key/value
 		encKey, err := getEncoder(typeKey, &stateEncode{})
